@@ -60,6 +60,8 @@ type caseCfg struct {
 	Proxies []proxyCfg `json:"proxies"`
 	// Plugins: additional proxies of client A whose local side is a client plugin (plugin.go)
 	Plugins []pluginCfg `json:"plugins,omitempty"`
+	// CtlLoss: client A sits behind a relay that cuts its control connection between the two exchanges of every connection
+	CtlLoss bool `json:"ctl_loss,omitempty"`
 	// Churn: route churn case (churn.go)
 	Churn *churnCfg `json:"churn,omitempty"`
 	// GateVisitor: hold frps at the visitor hand-over hook until the user has read the backend's greeting
@@ -349,7 +351,7 @@ func genCases(n int, thorough bool, rngFor func(i int) *rand.Rand, servers []*sr
 
 func (cc *caseCfg) signature() string {
 	var sb strings.Builder
-	fmt.Fprintf(&sb, "s%d|%v|%v|%v|%v", cc.Server, cc.A, cc.B, cc.Plugins, cc.GateVisitor)
+	fmt.Fprintf(&sb, "s%d|%v|%v|%v|%v", cc.Server, cc.A, cc.B, cc.Plugins, cc.GateVisitor || cc.CtlLoss)
 	if cc.Churn != nil {
 		fmt.Fprintf(&sb, "|churn%v", *cc.Churn)
 	}
